@@ -76,7 +76,10 @@ def run(ctx):
     if ctx.replay:
         ctx.validate("Prop_C13", sig=sig, distinct=distinct)
         return ctx.finish(rule="replay")
-    ctx.tlc_mc("MC_Salamander", "MC_Salamander_big.cfg" if T else "MC_Salamander.cfg", coverage=T)
+    # thorough: the small configuration with per-action coverage (vacuity report), the big one without (coverage halves TLC's speed)
+    ctx.tlc_mc("MC_Salamander", "MC_Salamander.cfg", coverage=T)
+    if T:
+        ctx.tlc_mc("MC_Salamander", "MC_Salamander_big.cfg", timeout=1200)
     for m in ("NoRMu", "NoWMu", "NoLk", "EarlyUnlock", "JunkReturn"):
         ctx.tlc_mc("MC_Salamander", "MC_Salamander_mut%s.cfg" % m, expect_violation=True)
     scns = ctx.tlc_gen("MC_Salamander", "Gen_Salamander.cfg", num=1500 if T else 150, depth=200)
